@@ -62,10 +62,76 @@ impl Ns {
 /// named entry: all ids are namespace ids
 #[derive(Clone, Debug, PartialEq, Serialize, Deserialize)]
 enum NE {
-    Account { name: usize, aliases: Vec<usize> },
-    Commodity { name: usize, aliases: Vec<usize>, fmt: Option<u32> },
+    /// `lines`: the sub-directives exactly as written, in order; `aliases` (and `fmt`, the last
+    /// format line) are what they mean.  None = the fixed layout of older corpus files.
+    Account {
+        name: usize,
+        aliases: Vec<usize>,
+        #[serde(default)]
+        lines: Option<Vec<Sub>>,
+    },
+    Commodity {
+        name: usize,
+        aliases: Vec<usize>,
+        fmt: Option<u32>,
+        #[serde(default)]
+        lines: Option<Vec<Sub>>,
+    },
     Txn(Txn),
     Comment,
+}
+
+/// one sub-directive line of an `account` / `commodity` block
+#[derive(Clone, Debug, PartialEq, Serialize, Deserialize)]
+enum Sub {
+    Alias(usize),
+    Note,
+    Comment,
+    Format(u32),
+}
+
+fn sub_aliases(lines: &[Sub]) -> Vec<usize> {
+    lines.iter().filter_map(|l| if let Sub::Alias(a) = l { Some(*a) } else { None }).collect()
+}
+fn account_decl(name: usize, lines: Vec<Sub>) -> NE {
+    NE::Account { name, aliases: sub_aliases(&lines), lines: Some(lines) }
+}
+fn commodity_decl(name: usize, lines: Vec<Sub>) -> NE {
+    // set_format is called for every format line: the last one stays
+    let fmt = lines.iter().rev().find_map(|l| if let Sub::Format(d) = l { Some(*d) } else { None });
+    NE::Commodity { name, aliases: sub_aliases(&lines), fmt, lines: Some(lines) }
+}
+
+/// the given alias lines in the given order with note / comment / format lines before, between
+/// and after them in every order; `fmt` (commodities) is the format that stays, i.e. the last
+/// format line, possibly with an overridden one before it
+fn layout(r: &mut Rng, aliases: &[usize], fmt: Option<u32>, is_acc: bool) -> Vec<Sub> {
+    layout_with(r, aliases, fmt, is_acc, 6)
+}
+
+/// `fmt_one_in`: a commodity block without a planned format gets a format line one time in so many
+fn layout_with(r: &mut Rng, aliases: &[usize], fmt: Option<u32>, is_acc: bool, fmt_one_in: u64) -> Vec<Sub> {
+    let mut v: Vec<Sub> = aliases.iter().map(|a| Sub::Alias(*a)).collect();
+    let extras = match r.below(8) {
+        0 => 0,
+        1..=3 => 1,
+        4..=6 => 2,
+        _ => 3,
+    };
+    for _ in 0..extras {
+        let at = r.below(v.len() as u64 + 1) as usize;
+        v.insert(at, if r.chance(1, 2) { Sub::Note } else { Sub::Comment });
+    }
+    let fmt = if is_acc { None } else if fmt.is_none() && r.chance(1, fmt_one_in) { Some(*r.pick(&[2u32, 3, 4])) } else { fmt };
+    if let Some(dp) = fmt {
+        let at = r.below(v.len() as u64 + 1) as usize;
+        v.insert(at, Sub::Format(dp));
+        if r.chance(1, 4) {
+            let before = r.below(at as u64 + 1) as usize;
+            v.insert(before, Sub::Format(*r.pick(&[0u32, 1, 2, 4])));
+        }
+    }
+    v
 }
 
 // ---------- text ----------
@@ -139,7 +205,35 @@ fn render_n(entries: &[NE], ns: &Ns) -> Rendered {
                     line += 1;
                 }
             }
-            NE::Account { name, aliases } => {
+            NE::Account { name, lines: Some(lines), .. } => {
+                writeln!(text, "account {}", ns.acc[*name]).unwrap();
+                line += 1;
+                for l in lines {
+                    match l {
+                        Sub::Alias(a) => writeln!(text, "    alias {}", ns.acc[*a]).unwrap(),
+                        Sub::Note => writeln!(text, "    note about {}", k).unwrap(),
+                        Sub::Comment => writeln!(text, "    ; remark {}", k).unwrap(),
+                        Sub::Format(_) => continue,
+                    }
+                    line += 1;
+                }
+            }
+            NE::Commodity { name, lines: Some(lines), .. } => {
+                writeln!(text, "commodity {}", ns.com[*name]).unwrap();
+                line += 1;
+                for l in lines {
+                    match l {
+                        Sub::Alias(a) => writeln!(text, "    alias {}", ns.com[*a]).unwrap(),
+                        Sub::Note => writeln!(text, "    note about {}", k).unwrap(),
+                        Sub::Comment => writeln!(text, "    ; remark {}", k).unwrap(),
+                        Sub::Format(dp) => {
+                            writeln!(text, "    format {} {}", num_text(1000 * 10i64.pow(*dp), *dp, true), ns.com[*name]).unwrap()
+                        }
+                    }
+                    line += 1;
+                }
+            }
+            NE::Account { name, aliases, lines: None } => {
                 writeln!(text, "account {}", ns.acc[*name]).unwrap();
                 line += 1;
                 // note / comment sub-directives before and between the alias lines
@@ -159,7 +253,7 @@ fn render_n(entries: &[NE], ns: &Ns) -> Rendered {
                     line += 1;
                 }
             }
-            NE::Commodity { name, aliases, fmt } => {
+            NE::Commodity { name, aliases, fmt, lines: None } => {
                 writeln!(text, "commodity {}", ns.com[*name]).unwrap();
                 line += 1;
                 // the format line between the aliases when there are two
@@ -193,8 +287,8 @@ fn render_n(entries: &[NE], ns: &Ns) -> Rendered {
 
 fn ne_term(e: &NE) -> String {
     match e {
-        NE::Account { name, aliases } => format!("(NAccount {} {})", name, coq::list(aliases.iter().map(|a| a.to_string()))),
-        NE::Commodity { name, aliases, fmt } => format!(
+        NE::Account { name, aliases, .. } => format!("(NAccount {} {})", name, coq::list(aliases.iter().map(|a| a.to_string()))),
+        NE::Commodity { name, aliases, fmt, .. } => format!(
             "(NCommodity {} {} {})",
             name,
             coq::list(aliases.iter().map(|a| a.to_string())),
@@ -302,6 +396,7 @@ fn map_exch(x: &Exch, f: &mut dyn FnMut(usize) -> usize) -> Exch {
 /// every written name of a transaction, in source order
 fn map_txn(t: &Txn, fa: &mut dyn FnMut(usize) -> usize, fc: &mut dyn FnMut(usize) -> usize) -> Txn {
     Txn {
+        effective: t.effective,
         date: t.date,
         posts: t
             .posts
@@ -332,7 +427,7 @@ fn gen_base(r: &mut Rng, ns: &Ns, b: &Bias) -> Vec<NE> {
                         aliases.push(ns.com_alias(*c, k));
                     }
                 }
-                NE::Commodity { name: ns.com_canon(*c), aliases, fmt: Some(*dp) }
+                commodity_decl(ns.com_canon(*c), layout(r, &aliases, Some(*dp), false))
             }
             Entry::Comment => NE::Comment,
         });
@@ -347,7 +442,7 @@ fn gen_base(r: &mut Rng, ns: &Ns, b: &Bias) -> Vec<NE> {
             _ => vec![ns.acc_alias(i, 0), ns.acc_alias(i, 1)],
         };
         let at = if r.chance(1, 2) { 0 } else { r.below(out.len() as u64 + 1) as usize };
-        out.insert(at, NE::Account { name: ns.acc_canon(i), aliases });
+        out.insert(at, account_decl(ns.acc_canon(i), layout(r, &aliases, None, true)));
     }
     let ncom = 1 + r.below(2);
     for _ in 0..ncom {
@@ -358,13 +453,13 @@ fn gen_base(r: &mut Rng, ns: &Ns, b: &Bias) -> Vec<NE> {
             _ => vec![ns.com_alias(i, 1), ns.com_alias(i, 0)],
         };
         let at = if r.chance(1, 2) { 0 } else { r.below(out.len() as u64 + 1) as usize };
-        out.insert(at, NE::Commodity { name: ns.com_canon(i), aliases, fmt: None });
+        out.insert(at, commodity_decl(ns.com_canon(i), layout(r, &aliases, None, false)));
     }
     // a declaration without alias now and then
     if r.chance(1, 5) {
         let i = r.below(ACCOUNTS.len() as u64) as usize;
         let at = r.below(out.len() as u64 + 1) as usize;
-        out.insert(at, NE::Account { name: ns.acc_canon(i), aliases: vec![] });
+        out.insert(at, account_decl(ns.acc_canon(i), layout(r, &[], None, true)));
     }
     out
 }
@@ -377,7 +472,7 @@ fn substitute(es: &[NE], r: &mut Rng, num: u64, den: u64) -> (Vec<NE>, usize) {
     let mut out = Vec::new();
     for e in es {
         match e {
-            NE::Account { name, aliases } => {
+            NE::Account { name, aliases, .. } => {
                 let v = da.entry(*name).or_default();
                 for a in aliases {
                     if !v.contains(a) {
@@ -428,8 +523,17 @@ fn substitute(es: &[NE], r: &mut Rng, num: u64, den: u64) -> (Vec<NE>, usize) {
     (out, n)
 }
 
-/// plant one declaration conflict; returns the kind
-fn plant_conflict(es: &[NE], r: &mut Rng, ns: &Ns) -> (Vec<NE>, &'static str) {
+/// does a sub-line follow the alias line `a` in the block?
+fn followed(lines: &[Sub], a: usize) -> bool {
+    match lines.iter().position(|l| *l == Sub::Alias(a)) {
+        Some(i) => i + 1 < lines.len(),
+        None => false,
+    }
+}
+
+/// plant one declaration conflict; returns the kind and whether further sub-lines follow the
+/// alias line meant to be refused (where it is an alias line that is refused)
+fn plant_conflict(es: &[NE], r: &mut Rng, ns: &Ns) -> (Vec<NE>, &'static str, Option<bool>) {
     let mut out = es.to_vec();
     let is_acc = r.chance(1, 2);
     let n = if is_acc { ACCOUNTS.len() } else { COMMODITIES.len() } as u64;
@@ -440,11 +544,26 @@ fn plant_conflict(es: &[NE], r: &mut Rng, ns: &Ns) -> (Vec<NE>, &'static str) {
     }
     let canon = |i: usize| if is_acc { ns.acc_canon(i) } else { ns.com_canon(i) };
     let alias = |i: usize, k: usize| if is_acc { ns.acc_alias(i, k) } else { ns.com_alias(i, k) };
-    let decl = |name: usize, aliases: Vec<usize>| {
+    // the block of sub-lines in a random order around the alias lines: notes, comments, format
+    // lines and harmless alias lines before, between and after the one that must be refused
+    let mut after: Option<bool> = None;
+    let mut decl = |r: &mut Rng, name: usize, mut aliases: Vec<usize>, bad: Option<usize>, own: usize| {
+        // a harmless alias of the declared name itself, before or after the others
+        if r.chance(1, 2) {
+            let extra = alias(own, r.below(2) as usize);
+            if !aliases.contains(&extra) {
+                let at = r.below(aliases.len() as u64 + 1) as usize;
+                aliases.insert(at, extra);
+            }
+        }
+        let lines = layout_with(r, &aliases, None, is_acc, 2);
+        if let Some(b) = bad {
+            after = Some(followed(&lines, b));
+        }
         if is_acc {
-            NE::Account { name, aliases }
+            account_decl(name, lines)
         } else {
-            NE::Commodity { name, aliases, fmt: None }
+            commodity_decl(name, lines)
         }
     };
     let k = r.below(2) as usize;
@@ -452,14 +571,17 @@ fn plant_conflict(es: &[NE], r: &mut Rng, ns: &Ns) -> (Vec<NE>, &'static str) {
     let kind = match r.below(6) {
         0 => {
             // alias of a name that is canonical by declaration
-            out.insert(p1, decl(canon(x), vec![]));
+            let d = decl(r, canon(x), vec![], None, x);
+            out.insert(p1, d);
             let p2 = p1 + 1 + r.below((out.len() - p1) as u64) as usize;
-            out.insert(p2, decl(canon(y), vec![canon(x)]));
+            let d = decl(r, canon(y), vec![canon(x)], Some(canon(x)), y);
+            out.insert(p2, d);
             "alias_already_declared_canonical"
         }
         1 => {
             // alias of a name made canonical implicitly by an earlier use: declare at the end
-            out.push(decl(canon(y), vec![canon(x)]));
+            let d = decl(r, canon(y), vec![canon(x)], Some(canon(x)), y);
+            out.push(d);
             "alias_already_canonical_by_use"
         }
         2 => {
@@ -468,8 +590,18 @@ fn plant_conflict(es: &[NE], r: &mut Rng, ns: &Ns) -> (Vec<NE>, &'static str) {
             // drop earlier declarations of that alias, write it in the first transaction that uses x
             for e in out.iter_mut() {
                 match e {
-                    NE::Account { aliases, .. } if is_acc => aliases.retain(|z| *z != a),
-                    NE::Commodity { aliases, .. } if !is_acc => aliases.retain(|z| *z != a),
+                    NE::Account { aliases, lines, .. } if is_acc => {
+                        aliases.retain(|z| *z != a);
+                        if let Some(l) = lines {
+                            l.retain(|z| *z != Sub::Alias(a));
+                        }
+                    }
+                    NE::Commodity { aliases, lines, .. } if !is_acc => {
+                        aliases.retain(|z| *z != a);
+                        if let Some(l) = lines {
+                            l.retain(|z| *z != Sub::Alias(a));
+                        }
+                    }
                     _ => {}
                 }
             }
@@ -489,7 +621,9 @@ fn plant_conflict(es: &[NE], r: &mut Rng, ns: &Ns) -> (Vec<NE>, &'static str) {
                     }
                 }
             }
-            out.push(decl(cx, vec![a]));
+            // the other alias of x may be declared in the same block, on either side
+            let d = decl(r, cx, vec![a], Some(a), x);
+            out.push(d);
             if done {
                 "alias_name_used_before_declaration"
             } else {
@@ -498,24 +632,31 @@ fn plant_conflict(es: &[NE], r: &mut Rng, ns: &Ns) -> (Vec<NE>, &'static str) {
         }
         3 => {
             // canonical declaration of a name that is an alias
-            out.insert(p1, decl(canon(x), vec![alias(x, k)]));
+            let d = decl(r, canon(x), vec![alias(x, k)], None, x);
+            out.insert(p1, d);
             let p2 = p1 + 1 + r.below((out.len() - p1) as u64) as usize;
-            out.insert(p2, decl(alias(x, k), vec![]));
+            let d = decl(r, alias(x, k), vec![], None, y);
+            out.insert(p2, d);
             "canonical_already_alias"
         }
         4 => {
             // one alias for two canonicals
-            out.insert(p1, decl(canon(x), vec![alias(x, k)]));
+            let d = decl(r, canon(x), vec![alias(x, k)], None, x);
+            out.insert(p1, d);
             let p2 = p1 + 1 + r.below((out.len() - p1) as u64) as usize;
-            out.insert(p2, decl(canon(y), vec![alias(y, 0), alias(x, k)]));
+            let both = if r.chance(1, 2) { vec![alias(y, 0), alias(x, k)] } else { vec![alias(x, k), alias(y, 0)] };
+            let d = decl(r, canon(y), both, Some(alias(x, k)), y);
+            out.insert(p2, d);
             "alias_of_two_canonicals"
         }
         _ => {
-            out.insert(p1, decl(canon(x), vec![alias(x, k), canon(x)]));
+            let both = if r.chance(1, 2) { vec![alias(x, k), canon(x)] } else { vec![canon(x), alias(x, k)] };
+            let d = decl(r, canon(x), both, Some(canon(x)), x);
+            out.insert(p1, d);
             "alias_of_itself"
         }
     };
-    (out, kind)
+    (out, kind, after)
 }
 
 fn used_anything(es: &[NE]) -> bool {
@@ -596,7 +737,7 @@ pub fn run(o: &Opts) {
     let header = "From Coq Require Import List NArith ZArith QArith Qcanon.\nFrom Okv Require Import Base.Maps Base.Dec Model.Amount Model.Book Model.Intern Model.Named Run.LedgerCase Run.Classify_C12.\nImport ListNotations.\nOpen Scope N_scope.";
     let mut sh = Shards::new(&o.out, o.shards, header);
     let mut st = Stats::new();
-    st.rule = "ledgers of the C01 generator with `account` / `commodity` declarations carrying 1-2 aliases placed before, between and after the uses; each ledger is run a second time with declared aliases written at random later occurrences (accounts of postings; commodities in amounts, costs, lot prices, assertions) and both observations form one case; conflict cases plant one conflicting declaration (alias already canonical by declaration / by earlier use / the alias name itself used earlier; canonical already an alias; one alias for two canonicals; alias of itself); observed: Ledger::transactions + Ledger::balance through report::process on a FakeFileSystem, and the parsed stdout of `okane balance` / `okane register` on a real file; non-trivial = at least one substituted occurrence, or a reported declaration conflict; distinct by the pair of ledger texts".into();
+    st.rule = "ledgers of the C01 generator with `account` / `commodity` declarations carrying 1-2 aliases placed before, between and after the uses, their blocks written with note / comment / format sub-lines (and, in conflict cases, harmless alias lines) before, between and after the alias lines in every order; each ledger is run a second time with declared aliases written at random later occurrences (accounts of postings; commodities in amounts, costs, lot prices, assertions) and both observations form one case; conflict cases plant one conflicting declaration (alias already canonical by declaration / by earlier use / the alias name itself used earlier; canonical already an alias; one alias for two canonicals; alias of itself); observed: Ledger::transactions + Ledger::balance through report::process on a FakeFileSystem, and the parsed stdout of `okane balance` / `okane register` on a real file; non-trivial = at least one substituted occurrence, or a reported declaration conflict; distinct by the pair of ledger texts".into();
     st.assumptions.push("same numeric ranges as C01 (exact Decimal arithmetic)".into());
     let ns = Ns::new();
     let names = Names { accounts: ns.acc.clone(), commodities: ns.com.clone() };
@@ -640,8 +781,13 @@ pub fn run(o: &Opts) {
             // the first ledger already writes an alias here and there
             let (a, _) = substitute(&base, &mut r, 1, 8);
             if k % 4 == 3 {
-                let (c, kind) = plant_conflict(&a, &mut r, &ns);
+                let (c, kind, after) = plant_conflict(&a, &mut r, &ns);
                 if used_anything(&c) {
+                    match after {
+                        Some(true) => st.count("conflict_block:sub-lines_follow_the_refused_alias_line"),
+                        Some(false) => st.count("conflict_block:refused_alias_line_is_last"),
+                        None => st.count("conflict_block:the_declaration_itself_is_refused"),
+                    }
                     emit(&mut sh, &mut st, &c, &c, 0, kind, &ns, &names, &scratch);
                 }
             } else {
